@@ -195,6 +195,7 @@ type writerTo struct {
 	pos       int
 	fired     bool
 	writeErr  error // error returned by the destination writer (the pipe)
+	scratch   []byte
 	returned  bool
 }
 
@@ -225,7 +226,17 @@ func (s *writerTo) WriteTo(w io.Writer) (int64, error) {
 			}
 		})
 		op.End("%d bytes at %d", n, s.pos)
-		m, err := w.Write(s.data[s.pos : s.pos+n])
+		// like io.Copy, stream through one scratch buffer that is refilled as soon as a write has returned: a writer
+		// must not hold on to the slice it was given
+		if cap(s.scratch) < n {
+			s.scratch = make([]byte, n)
+		}
+		chunk := s.scratch[:n]
+		copy(chunk, s.data[s.pos:s.pos+n])
+		m, err := w.Write(chunk)
+		for i := range chunk {
+			chunk[i] = '#'
+		}
 		s.pos += m
 		if err != nil {
 			s.writeErr = err
